@@ -219,6 +219,19 @@ pub fn wrap(k: Wrapk, x: &FTy, lt: Option<&str>) -> Option<FTy> {
     })
 }
 
+/// `crate::prelude::homonyms::<Name><X>`: a generic wrapper whose last path segment is the deriving type's own name
+pub fn homonym(type_name: &str, x: &FTy) -> Option<FTy> {
+    if !matches!(type_name, "Ty" | "Alpha" | "Node" | "Item9") {
+        return None;
+    }
+    let mut t = wrap(Wrapk::Wrapper, x, None)?;
+    let path = format!("crate::prelude::homonyms::{type_name}");
+    t.src = t.src.replacen("Wrapper", &path, 1);
+    t.inst = t.inst.replacen("Wrapper", &path, 1);
+    t.vals = t.vals.iter().map(|v| v.replacen("Wrapper", &path, 1)).collect();
+    Some(t)
+}
+
 /// `(A, B)` over two parameter uses
 pub fn tup2(a: &FTy, b: &FTy) -> FTy {
     let (a0, a1) = (&a.vals[0], a.vals.get(1).unwrap_or(&a.vals[0]));
